@@ -335,6 +335,14 @@ BASES = [
      {'depth': '8', 'drm': 'playready', 'timeline': '1'}),
     ('live-tears', '/dash/live/tears/hand_made.mpd?depth=8', 'live', {'depth': '8'}),
 ]
+# thorough tier only
+MORE_BASES = [
+    ('odvod', '/dash/odvod/bbb/manifest_vod_aiv.mpd', 'odvod', {}),
+    ('mps-vod', '/mps/vod/testmps/hand_made.mpd', 'vod', {}),
+    ('live-patch', '/dash/live/bbb/hand_made.mpd?depth=8&timeline=1&patch=1', 'live', {'depth': '8', 'timeline': '1', 'patch': '1'}),
+    ('vod-tears-timeline', '/dash/vod/tears/manifest_e.mpd?timeline=1', 'vod', {'timeline': '1'}),
+    ('live-events', '/dash/live/bbb/hand_made.mpd?depth=30&events=ping', 'live', {'depth': '30', 'events': 'ping'}),
+]
 
 
 def intersects(e, a, b):
@@ -435,15 +443,22 @@ def detect_item(item):
                               f'(session finished={s.finished}, {len(s.client.log)} requests)', rec)
                 continue
             acc.outcome(('detected', corruption))
-            # location clause
-            text = '\n'.join(s.dv.get_manifest_lines())
-            mpd_line, sets = element_ranges(text)
-            if kind in ('media', 'init') or corruption == 'timeline-gap':
+            # location clause. An error carries line numbers of the manifest text that was current when it was raised:
+            # every manifest version of the session (fetched, or produced by applying a patch) is a candidate
+            texts = list(s.client.manifest_texts) + ['\n'.join(s.dv.get_manifest_lines())]
+            mpd_lines, sets = [], []
+            for text in texts:
+                ml, ss = element_ranges(text)
+                mpd_lines.append(ml)
                 if kind == 'manifest':
-                    want = sets[:1]
+                    sets += ss[:1]
                 else:
                     path = rurl.split('?')[0]
-                    want = [(a, b, ids) for a, b, ids in sets if any(f'/{i}/' in path or f'/{i}.' in path for i in ids)]
+                    sets += [(a, b, ids) for a, b, ids in ss if any(f'/{i}/' in path or f'/{i}.' in path for i in ids)]
+            mpd_line = (min(a for a, _ in mpd_lines), max(b for _, b in mpd_lines))
+            if kind in ('media', 'init') or corruption == 'timeline-gap':
+                want = sorted(set((a, b) for a, b, _ in sets))
+                want = [(a, b, None) for a, b in want]
                 if not want:
                     acc.outcome(('location-not-judged', corruption))
                     continue
@@ -495,7 +510,7 @@ def plan(tier):
                 oo.setdefault('depth', '20')
             items.append(('mps', 'testmps', 'hand_made', mode, oo, CLOCKS[:1], tier))
     w = W.World.shared()
-    for name, url, mode, opts in BASES:
+    for name, url, mode, opts in (BASES if tier == 'quick' else BASES + MORE_BASES):
         base = session(w, url, mode, opts, NOW)
         n = len(targets_of(base.client.log))
         step = 3
@@ -530,7 +545,7 @@ def replay(record):
         if not s.errors and not s.crash and not s.finished:
             out.append((sig('accept', 'does-not-terminate', record['mode'], window_class(w.get(mpd.split_url(url) if url.startswith('http') else url).body)), 'unfinished'))
         return out
-    base = next(b for b in BASES if b[0] == record['base'])
+    base = next(b for b in BASES + MORE_BASES if b[0] == record['base'])
     name, url, mode, opts = base
     b = session(w, url, mode, opts, NOW)
     tg = targets_of(b.client.log)
